@@ -45,11 +45,20 @@ VERSION_CMP = ["suit-condition-version-comparison-greater", "suit-condition-vers
 BOUNDARY_INTS = [0, 1, 23, 24, 255, 256, 65535, 65536, 0xFFFFFFFF, 0x100000000]
 
 ALL_FEATURES = ["severed", "text", "deps", "payloads", "tryeach", "runseq", "params_all", "encinfo", "version",
-                "authblock", "nonascii", "boundary", "refs", "index_forms", "many_cmds", "component_text"]
+                "authblock", "nonascii", "boundary", "refs", "index_forms", "many_cmds", "component_text", "tricky_text"]
 
 WORDS = ["nordic", "radio", "app", "sdfw", "sysctrl", "root", "top", "cache", "slot", "fw", "image", "local",
          "recovery", "sample", "nRF54H20", "nRF9280", "vendor", "class", "alpha", "omega"]
 NONASCII = ["zażółć", "ñandú", "日本", "ßtraße", "Ω"]
+# text a serialiser can lose or re-type on the way through YAML / JSON: Unicode line breaks (NEL, LS, PS), BOM,
+# control characters, leading / trailing / doubled blanks, line breaks, YAML indicators, and strings that read as
+# another YAML type (bool, null, int, float, date, sexagesimal, merge key)
+TRICKY_TEXT = ["a\u0085b", "\u0085", "a\u2028b", "a\u2029b", "\ufeffa", "a\tb", " lead", "trail ", "a\nb", "a\n", "\n", "a\n\nb",
+               "a: b", "#c", "a #b", "- x", "'q'", '"dq"', "a\\b", "yes", "no", "on", "null", "~", "123", "0x10", "0o17", "1e3",
+               "1.5", "+1", ".inf", ".nan", "true", "2020-01-01", "1:30", "<<", "=", "&a", "*a", "!t", "%p", "@a", "`b", "{a}",
+               "[a]", "a,b", "? x", "| x", "> x", "-", "---", "...", "a  b", " ", "a\rb", "a\r\nb", "a\x7fb", "a\x1bb", "a\x00b",
+               "\x80", "\x9f", "\U0001F600", "\ufffd", "\ud7ff\ue000", "a \nb", "a\n b", "\t", "a\t", "\ta",
+               ("w " * 60).strip(), "x" * 200, "\u00e9" * 90]
 
 
 class World:
@@ -87,6 +96,8 @@ class DescGen:
         return self.s.below(1000)
 
     def text(self):
+        if "tricky_text" in self.f and self.s.chance(0.35):
+            return self.s.choice(TRICKY_TEXT)
         if "boundary" in self.f and self.s.chance(0.2):
             n = self.s.choice([0, 1, 23, 24, 255, 256])
             return ("x" * n)
@@ -374,7 +385,7 @@ class DescGen:
         # member order varies; component id early / late
         members = []
         if self.s.chance(0.3):
-            members.append(("suit-reference-uri", "http://" + self.name() + "/" + self.name()))
+            members.append(("suit-reference-uri", "http://" + self.name() + "/" + (self.text() if "tricky_text" in self.f else self.name())))
         if "version" in self.f and self.s.chance(0.5):
             members.append(("suit-current-version", self.version()))
         for k in SEQ_MEMBERS_PLAIN:
@@ -460,4 +471,7 @@ def render(desc, fmt: str) -> str:
         return json.dumps(desc)
     import yaml
 
-    return yaml.safe_dump(desc, sort_keys=False, allow_unicode=True)
+    # PyYAML's emitter writes U+0085 (NEL) raw when allow_unicode is on and its own loader then folds it as a line
+    # break: such descriptions are written escaped, all others as the UTF-8 text a user would type
+    raw_ok = "\x85" not in json.dumps(desc, ensure_ascii=False)
+    return yaml.safe_dump(desc, sort_keys=False, allow_unicode=raw_ok)
